@@ -20,6 +20,7 @@ type c14path struct {
 	Pair        int    `json:"topic_filter_pair"`
 	Qos         int32  `json:"qos"`
 	Withhold    int    `json:"subscription_gossip_withheld_from_node"` // 0 = none
+	Extra       int    `json:"second_matching_subscriber_on_node"`      // 0 = none; subscribes last, so matching subscriptions alternate between nodes
 }
 
 var c14pairs = [][3]string{{"a/b", "a/+", "a/c"}, {"a", "a/#", "b/#"}, {"a/b/c", "#", "+"}, {"a/b", "+/b", "a/b/c"}}
@@ -62,11 +63,18 @@ func c14paths() []c14path {
 							if n == 3 && q == 2 && !vk.Thorough() {
 								continue
 							}
-							out = append(out, c14path{n, pn, hosts, un, pi, q, 0})
+							out = append(out, c14path{n, pn, hosts, un, pi, q, 0, 0})
+							if pi == 0 && q == 1 {
+								for ex := 1; ex <= n; ex++ {
+									if hosts[ex-1]&1 != 0 {
+										out = append(out, c14path{n, pn, hosts, un, pi, q, 0, ex})
+									}
+								}
+							}
 							if vk.Thorough() && pi == 0 && q == 1 {
 								for _, r := range remotes {
 									if hosts[r-1]&1 != 0 {
-										out = append(out, c14path{n, pn, hosts, un, pi, q, r})
+										out = append(out, c14path{n, pn, hosts, un, pi, q, r, 0})
 									}
 								}
 							}
@@ -123,6 +131,13 @@ func TestC14CrossNode(t *testing.T) {
 						w.Step()
 						subs = append(subs, sub{c, n, false})
 					}
+				}
+				if p.Extra != 0 {
+					c := w.NewClient(fmt.Sprintf("m%db", p.Extra), p.Extra, AckAll)
+					c.Connect(ConnectOpts{ClientID: c.Name, KeepAlive: 600})
+					c.Subscribe(1, 1, match)
+					w.Step()
+					subs = append(subs, sub{c, p.Extra, true})
 				}
 				pub := w.NewClient("pub", p.Publisher, AckAll)
 				pub.Connect(ConnectOpts{ClientID: "pub", KeepAlive: 600})
